@@ -7,7 +7,7 @@
    output (exhaustive small alphabet + families + whole messages), see DESIGN.md. *)
 From Coq Require Import Strings.String.
 From LV Require Import Base.Bytes Base.Str Base.Res Base.Base64 Model.HeaderEnc Spec.Rfc2047 Proofs.Rfc2047Proofs
-  Proofs.Base64Proofs Spec.Rfc5322 Proofs.HeaderPlainProofs Base.Utf8 Proofs.HeaderRtProofs Proofs.PhraseProofs Spec.Rfc2231 Proofs.Rfc2231Proofs.
+  Proofs.Base64Proofs Spec.Rfc5322 Proofs.HeaderPlainProofs Base.Utf8 Proofs.Rfc2047DecProofs Proofs.Utf8SplitProofs Proofs.HeaderRtProofs Proofs.PhraseProofs Spec.Rfc2231 Proofs.Rfc2231Proofs.
 
 (* THE property for unstructured values (Subject, Comments, custom text headers): for every header name and
    EVERY well-formed UTF-8 string - any length, any mixture of words that need encoding and words that do not,
@@ -80,6 +80,27 @@ Theorem C12_words_valid : forall w : bytes, bytes_ok w = true -> (length w <= 45
   (length (ENC_START ++ b64enc w ++ ENC_END) <= 75)%nat.
 Proof. exact encoded_word_decodes. Qed.
 
+(* "Every encoded-word is valid on its own (complete UTF-8 ...)": rfc2047::encode applied to ANY non-empty well-formed
+   UTF-8 text, in any writer state, cuts it into pieces p1 .. pn - in order, nothing lost or added - each of 1..45 octets
+   and each well-formed UTF-8 on its own (no character is ever split between two encoded-words), and what it writes
+   reads, after unfolding, as the pending blanks followed by the encoded-words of the pieces separated by one SP.
+   The texts the header encoder hands to it are stretches of the value between SP octets; C12_text_between_ascii says
+   those are well-formed whenever the value is. *)
+Theorem C12_encoded_words_complete_utf8 : forall (s : bytes) (st : wst), s <> [] -> utf8_valid s = true ->
+  exists ps st' o, rfc2047_encode s st = Ok (st', o) /\ concat ps = s /\
+    Forall (fun p => p <> [] /\ (length p <= 45)%nat /\ utf8_valid p = true) ps /\
+    reads_as o (sp_run (spaces st) ++ joinenc ps).
+Proof. exact rfc2047_pieces_complete. Qed.
+Theorem C12_text_between_ascii : forall a m b : bytes, utf8_valid (a ++ m ++ b) = true ->
+  (a = [] \/ exists a' x, a = a' ++ [x] /\ (x <? 128)%N = true) ->
+  (b = [] \/ exists x b', b = x :: b' /\ (x <? 128)%N = true) ->
+  utf8_valid m = true.
+Proof. exact utf8_segment. Qed.
+(* the cut itself: well-formed UTF-8 split where the next octet is not a continuation octet *)
+Theorem C12_cut_at_boundary : forall (s : bytes) (k : nat), utf8_valid s = true -> is_boundary s k = true ->
+  utf8_valid (firstn k s) = true /\ utf8_valid (skipn k s) = true.
+Proof. exact utf8_cut. Qed.
+
 (* the pieces cut by rfc2047::encode never exceed the bound asked for (<= 45 by construction:
    (76 - 14 - line_len) / 4 * 3 <= 45) *)
 Theorem C12_piece_bound : forall (s : bytes) (m : nat), (length (trunc_go s m) <= m)%nat.
@@ -117,3 +138,6 @@ Print Assumptions C12_roundtrip.
 Print Assumptions C12_roundtrip_bytes.
 Print Assumptions C12_display_name.
 Print Assumptions C12_filename.
+Print Assumptions C12_encoded_words_complete_utf8.
+Print Assumptions C12_text_between_ascii.
+Print Assumptions C12_cut_at_boundary.
